@@ -16,8 +16,13 @@ A case (corpus/C34/*.json, replay files) is {"entries": [[name, datahex, compres
 """
 from __future__ import annotations
 
+import contextlib
 import glob
+import inspect
 import io
+import re
+import shutil
+import tempfile
 import json
 import os
 import unicodedata
@@ -36,6 +41,21 @@ PINS = [
     ("androguard/core/apk/__init__.py", "APK.get_dex_names"),
     ("androguard/core/apk/__init__.py", "APK.get_all_dex"),
     ("androguard/core/apk/__init__.py", "APK.is_multidex"),
+    # other public APIs of the APK object that touch the archive (history stream vocabulary)
+    ("androguard/core/apk/__init__.py", "APK.new_zip"),
+    ("androguard/core/apk/__init__.py", "APK.get_files_types"),
+    ("androguard/core/apk/__init__.py", "APK.files"),
+    ("androguard/core/apk/__init__.py", "APK.get_files_crc32"),
+    ("androguard/core/apk/__init__.py", "APK.get_files_information"),
+    ("androguard/core/apk/__init__.py", "APK._get_crc32"),
+    ("androguard/core/apk/__init__.py", "APK._get_file_magic_name"),
+    ("androguard/core/apk/__init__.py", "APK._patch_magic"),
+    ("androguard/core/apk/__init__.py", "APK.get_raw"),
+    ("androguard/core/apk/__init__.py", "APK.get_dex"),
+    ("androguard/core/apk/__init__.py", "APK.get_signature_names"),
+    ("androguard/core/apk/__init__.py", "APK.get_certificate_der"),
+    ("androguard/core/apk/__init__.py", "APK.__getstate__"),
+    ("androguard/core/apk/__init__.py", "APK.__setstate__"),
 ]
 
 
@@ -438,7 +458,70 @@ def gen_collision_archive(rng):
     return {"entries": entries, "queries": qs, "note": note}
 
 
-def gen_ops(rng, case, n):
+
+JUDGED = ("get_files", "get_file", "get_dex_names", "get_all_dex", "is_multidex")
+_REFLECTED = None
+
+
+def reflected_methods():
+    """every other public method/property of the real APK class that can be called with its defaults or
+    with an entry name for a parameter called filename/name: [(attribute, n_name_args, is_property)]"""
+    global _REFLECTED
+    if _REFLECTED is None:
+        APK, _ = _real()
+        out = []
+        for name, fn in inspect.getmembers(APK, inspect.isfunction):
+            if name.startswith("_") or name in JUDGED or name == "new_zip":
+                continue
+            req = [q.name for q in list(inspect.signature(fn).parameters.values())[1:]
+                   if q.default is q.empty and q.kind not in (q.VAR_POSITIONAL, q.VAR_KEYWORD)]
+            if all(r in ("filename", "name") for r in req):
+                out.append((name, len(req), False))
+        out += [(n, 0, True) for n, v in inspect.getmembers(APK) if isinstance(v, property) and not n.startswith("_")]
+        _REFLECTED = sorted(out)
+    return _REFLECTED
+
+
+ARCHIVE_APIS = ("get_files_types", "get_files_crc32", "get_files_information", "get_raw", "get_dex", "files",
+                "get_signature_names", "get_certificate_der", "get_android_manifest_axml", "get_android_resources")
+
+
+def deleted_pattern(op, names):
+    """the regular expression handed to new_zip(deleted_files=…): escaped EXISTING names (or one absent name)
+    anchored with \\Z, so that match/fullmatch/search-with-^ all select exactly these names"""
+    d = op["deleted"]
+    if d is None:
+        return None
+    alts = [re.escape(n) for n in d] or [re.escape("no/such/entry\x01")]
+    return ("^" if op.get("caret") else "") + "(?:" + "|".join(alts) + r")\Z"
+
+
+def gen_side_ops(rng, case, k):
+    """k ops from the wider vocabulary: new_zip with deletions/replacements, reflected public methods"""
+    names = [e[0] for e in case["entries"]]
+    refl = reflected_methods()
+    out = []
+    for _ in range(k):
+        if rng.random() < 0.45:
+            r = rng.random()
+            if r < 0.2 or not names:
+                d = None
+            elif r < 0.3:
+                d = []
+            else:
+                pick = [n for n in names if spec(n)] if rng.random() < 0.4 else names
+                d = rng.sample(pick or names, min(len(pick or names), rng.choice((1, 1, 2, 3))))
+            keep = [n for n in names if n not in (d or [])]
+            new = {n: gen_data(rng)[:40].hex() for n in rng.sample(keep, min(len(keep), rng.choice((0, 0, 1, 2))))}
+            out.append(["newzip", {"deleted": d, "new": new, "caret": rng.random() < 0.3}])
+        else:
+            pool = [m for m in refl if m[0] in ARCHIVE_APIS] if rng.random() < 0.6 else refl
+            m = rng.choice(pool)
+            args = [rng.choice(names) if names and rng.random() < 0.8 else "no/such/entry" for _ in range(m[1])]
+            out.append(["call", m[0], args])
+    return out
+
+def gen_ops(rng, case, n, side=0):
     """a seeded interleaving of the five observers on ONE APK object; names repeat, some are missing"""
     names = [e[0] for e in case["entries"]]
     missing = list(case.get("queries", [])) or ["no/such/entry"]
@@ -453,10 +536,17 @@ def gen_ops(rng, case, n):
             ops.append(["get", q])
         else:
             ops.append([rng.choice(("files", "dexnames", "alldex", "alldex", "multidex"))])
+    for so in gen_side_ops(rng, case, side):
+        ops.insert(rng.randrange(len(ops) + 1), so)
     if names:
         # every entry is read at least twice, once in each direction
         ops += [["get", n] for n in names] + [["get", n] for n in reversed(names)]
+    if side:
+        ops += [[rng.choice(("files", "dexnames", "alldex", "multidex"))] for _ in range(2)] + [["files"], ["alldex"], ["multidex"]]
     return ops
+
+
+LAST_CALLS = {}
 
 
 def run_history(case):
@@ -481,6 +571,8 @@ def run_history(case):
     except Exception as e:  # noqa
         return "other:" + type(e).__name__, [("APK raised on a well-formed archive", "an APK object", type(e).__name__)]
     first, bad, dep = {}, [], None
+    calls = LAST_CALLS
+    calls.clear()
 
     def see(key, val, i):
         nonlocal dep
@@ -515,10 +607,74 @@ def run_history(case):
                     bad.append((f"op#{i} get_all_dex does not yield the contents of the DEX entries in archive order",
                                 ["ok:" + enc_data(zcontent[n]) for n in want],
                                 ["ok:" + enc_data(b) if isinstance(b, bytes) else repr(b) for b in v]))
+            elif op[0] == "newzip":
+                o = op[1]
+                tmpd = tempfile.mkdtemp(prefix="c34-newzip-")
+                try:
+                    outp = os.path.join(tmpd, "out.zip")
+                    kw = {}
+                    if o["new"]:
+                        kw["new_files"] = {n: bytes.fromhex(h) for n, h in o["new"].items()}
+                    a.new_zip(outp, deleted_pattern(o, names), **kw)
+                    zo = zipfile.ZipFile(outp)
+                    exp_names = [n for n in names if n not in (o["deleted"] or [])]
+                    exp = {n: bytes.fromhex(o["new"][n]) if n in o["new"] else zcontent[n] for n in exp_names}
+                    got_names = zo.namelist()
+                    if got_names != exp_names:
+                        bad.append((f"op#{i} new_zip(deleted={o['deleted']!r}): the written archive does not hold the "
+                                    "original entries minus the deleted ones, in order", exp_names, got_names))
+                    else:
+                        for n in exp_names:
+                            if zo.read(n) != exp[n]:
+                                bad.append((f"op#{i} new_zip: entry {n!r} of the written archive has the wrong content",
+                                            "ok:" + enc_data(exp[n]), "ok:" + enc_data(zo.read(n))))
+                                break
+                    zo.close()
+                finally:
+                    shutil.rmtree(tmpd, ignore_errors=True)
+            elif op[0] == "call":
+                try:
+                    with contextlib.redirect_stdout(io.StringIO()):
+                        v = getattr(a, op[1]) if not callable(getattr(type(a), op[1], None)) else getattr(a, op[1])(*op[2])
+                        if inspect.isgenerator(v) or isinstance(v, (filter, map)):
+                            v = list(v)
+                    calls["ok"] = calls.get("ok", 0) + 1
+                    if op[1] == "get_raw" and bytes(v) != raw:
+                        bad.append((f"op#{i} get_raw does not return the archive's bytes", len(raw), len(v)))
+                    if op[1] == "get_dex" and bytes(v) != zcontent.get("classes.dex", b""):
+                        bad.append((f"op#{i} get_dex is not the content of classes.dex",
+                                    "ok:" + enc_data(zcontent.get("classes.dex", b"")), "ok:" + enc_data(bytes(v))))
+                    if op[1] == "get_files_crc32" and dict(v) != {n: zf.getinfo(n).CRC for n in names}:
+                        bad.append((f"op#{i} get_files_crc32 is not the CRC-32 of every entry",
+                                    {n: zf.getinfo(n).CRC for n in names}, dict(v)))
+                    if op[1] in ("get_files_types", "files") and list(v) != names:
+                        bad.append((f"op#{i} {op[1]} does not list every entry", names, list(v)))
+                    if op[1] == "get_files_information" and [t[0] for t in v] != names:
+                        bad.append((f"op#{i} get_files_information does not list every entry", names, [t[0] for t in v]))
+                except Exception as e:  # noqa  (most reflected methods need an analysed manifest: raising is fine)
+                    calls[type(e).__name__] = calls.get(type(e).__name__, 0) + 1
             else:
                 v = a.is_multidex(); see("multi", v, i)
                 if v is not (len(want) > 1):
                     bad.append((f"op#{i} is_multidex is not (number of DEX entries > 1)", len(want) > 1, v))
+            if op[0] in ("newzip", "call"):
+                label = f"after op#{i} {op[0]} {op[1] if op[0] == 'call' else 'deleted=' + repr(op[1]['deleted'])}: "
+                v = list(a.get_files()); see("files", v, i)
+                if v != names:
+                    bad.append((label + "get_files no longer equals the archive's entry names", names, v))
+                v = list(a.get_dex_names()); see("dex", v, i)
+                if v != want:
+                    bad.append((label + "get_dex_names is no longer the DEX entries of the archive", want, v))
+                v = a.is_multidex(); see("multi", v, i)
+                if v is not (len(want) > 1):
+                    bad.append((label + "is_multidex is no longer (number of DEX entries > 1)", len(want) > 1, v))
+                for n in names:
+                    line, got = res_of(lambda: a.get_file(n), FileNotPresent)
+                    see(("get", n), line, i)
+                    if got != zcontent[n]:
+                        bad.append((label + f"get_file({n!r}) no longer returns the entry's content",
+                                    "ok:" + enc_data(zcontent[n]), line))
+                        break
         except FileNotPresent:
             see((op[0], "raise"), "missing", i)
             bad.append((f"op#{i} {op[0]} raises FileNotPresent", "a value", "missing"))
@@ -590,7 +746,11 @@ def compact(case):
             t = dict(c, **{key: c[key][:i] + c[key][i + 1:]})
             if key == "entries":
                 gone = c["entries"][i][0]
-                t["ops"] = [o for o in t["ops"] if not (o[0] == "get" and o[1] == gone)]
+                t["ops"] = [o for o in t["ops"] if not (o[0] == "get" and o[1] == gone)
+                            and not (o[0] == "call" and gone in o[2])]
+                t["ops"] = [o if o[0] != "newzip" else
+                            ["newzip", dict(o[1], deleted=None if o[1]["deleted"] is None else [d for d in o[1]["deleted"] if d != gone],
+                                            new={k: v for k, v in o[1]["new"].items() if k != gone})] for o in t["ops"]]
             if fails(t):
                 c = t
             else:
@@ -826,16 +986,57 @@ def run(ck: Check):
             if len(hsamples) < 2 and i in (1, ncoll // 2):
                 hsamples.append({"entries": [e[0] for e in hc["entries"]], "forged": case["note"][:2],
                                  "ops": [o[0] if len(o) == 1 else f"get {o[1]!a}" for o in hc["ops"]][:14], "real": line[:200]})
+    # (e) histories over the wider vocabulary: new_zip (deletions / replacements, output judged) and every
+    #     reflected public method; after each such step all judged queries are re-checked against the ORIGINAL bytes
+    nside = 6000 if big else 1200 if esc else 300
+    sd = {"side_histories": 0, "new_zip_calls": 0, "new_zip_deleting_existing": 0, "new_zip_deleting_dex": 0,
+          "new_zip_replacing": 0, "reflected_calls": 0, "reflected_call_outcomes": {}, "reflected_vocabulary": len(reflected_methods())}
+    for i in range(nside):
+        base = gen_collision_archive(rng) if i % 4 == 0 else gen_archive(rng)
+        hc = dict(base, ops=None)
+        hc["ops"] = gen_ops(rng, hc, rng.randrange(3, 12), side=rng.randrange(1, 5))
+        line, bad = run_history(hc)
+        for k, v in LAST_CALLS.items():
+            sd["reflected_call_outcomes"][k] = sd["reflected_call_outcomes"].get(k, 0) + v
+        reqs.append(history_request(hc)); reals.append(line)
+        if bad:
+            if nfail_h < 3:
+                cc = compact(hc)
+                b2 = run_history(cc)[1] or bad
+            else:
+                cc, b2 = small(hc), bad
+            nfail_h += 1
+            ck.fail(cc, b2[0][0], None, b2[0][1], b2[0][2])
+        sd["side_histories"] += 1
+        for o in hc["ops"]:
+            if o[0] == "newzip":
+                sd["new_zip_calls"] += 1
+                sd["new_zip_deleting_existing"] += bool(o[1]["deleted"])
+                sd["new_zip_deleting_dex"] += any(spec(d) for d in (o[1]["deleted"] or []))
+                sd["new_zip_replacing"] += bool(o[1]["new"])
+            elif o[0] == "call":
+                sd["reflected_calls"] += 1
+        hkeys.append(("s", tuple(e[0] for e in hc["entries"]), tuple(o[0] + (o[1] if o[0] == "call" else "") for o in hc["ops"])))
+        if i == 5:
+            hsamples.append({"entries": [e[0] for e in hc["entries"]],
+                             "ops": [o[0] if len(o) == 1 else f"{o[0]} {o[1]!a}"[:80] for o in hc["ops"]][:16], "real": line[:160]})
+    hd.update(sd)
     ck.compare("collisions", creqs, creals, drv.ask(creqs))
     ck.compare("history", reqs, reals, drv.ask(reqs))
-    ck.cover(evaluations=2 * ncoll + len(reqs), distinct=hkeys, samples=hsamples, dist=hd)
+    ck.cover(evaluations=2 * ncoll + len(reqs), distinct=hkeys, samples=hsamples[:3], dist=hd)
     ck.notes.append("history stream: the model is a pure function of the entry list (history-independent); the real APK "
                     "object is driven through seeded interleavings of get_files/get_file/get_dex_names/get_all_dex/is_multidex "
                     "with repeated and missing names, every observation is judged against zipfile's content for that NAME at "
                     "that point, and the canonical line compared with the model is `history-dependent …` as soon as two "
                     "observations of the same kind differ. collisions stream: entries forged to share (CRC-32, size) with "
                     "different contents (4 computed trailing bytes), with identical duplicates, empty files, same-size and "
-                    "same-CRC pairs as controls, read in both archive orders.")
+                    "same-CRC pairs as controls, read in both archive orders. "
+                    "side histories: the vocabulary also has new_zip(filename in a tempdir, deleted_files = \\Z-anchored alternation of "
+                    "escaped EXISTING names / a pattern matching nothing / None, new_files replacing kept entries) whose written archive "
+                    "is judged with zipfile (original minus deleted, replacements applied, order kept), and every public method or "
+                    "property of APK found by reflection that is callable with defaults or with an entry name (exceptions tolerated: "
+                    "most need an analysed manifest); after each such step get_files/get_dex_names/is_multidex/get_file of every entry "
+                    "are re-judged against zipfile's view of the ORIGINAL bytes.")
 
     ck.assumptions += [
         "reading the zip container (apkInspector.headers.ZipEntry, zlib inflate) is modelled as an abstract entry list, "
@@ -863,7 +1064,7 @@ def replay(ck: Check, rp):
         for t in case.get("note", []):
             print("how forged:", t)
         print("entries:", [(ascii(n), len(h) // 2, "deflated" if c else "stored") for n, h, c in case["entries"]])
-        print("ops    :", [o[0] if len(o) == 1 else f"get {o[1]!a}" for o in case["ops"]])
+        print("ops    :", [o[0] if len(o) == 1 else f"{o[0]} {o[1]!a}" + (f" {o[2]!a}" if len(o) > 2 and o[2] else "") for o in case["ops"]])
         line, bad = run_history(case)
         print("real   :", line[:600])
         for what, exp, got in bad[:6]:
